@@ -120,11 +120,11 @@ func (t *TcpConn) finally() {
 }
 
 func (t *TcpConn) flush() {
-	for i := 0; i < len(t.outbound); i++ {
+	for {
 		select {
 		case pkt, ok := <-t.outbound:
 			if !ok {
-				break
+				return
 			}
 			if err := t.write(pkt); err != nil {
 				log.Errorf("%v marshal message %v: %v", t.node, pkt.Command(), err)
